@@ -302,7 +302,8 @@ class GCXS(SparseArray, NDArrayOperatorsMixin):
         --------
         [`numpy.ndarray.nbytes`][] : The equivalent Numpy property.
         """
-        return self.data.nbytes + self.indices.nbytes + self.indptr.nbytes
+        # 0-d and 1-d arrays carry no index pointers (`indptr` is an empty placeholder)
+        return self.data.nbytes + self.indices.nbytes + getattr(self.indptr, "nbytes", 0)
 
     @property
     def _axis_order(self):
